@@ -851,6 +851,7 @@ impl VirtualFileSystem for Memfs {
             },
             None => Err(PathError::does_not_exist(path).into()),
         }
+    }
 
     /// Append the given line to to the target file including a newline
     ///
@@ -2134,9 +2135,18 @@ impl VirtualFileSystem for Memfs {
     /// assert_vfs_read_all!(vfs, &file, "foobar 1".to_string());
     /// ```
     fn write_all<T: AsRef<Path>, U: AsRef<[u8]>>(&self, path: T, data: U) -> RvResult<()> {
-        let mut f = self.write(path)?;
-        f.write_all(data.as_ref())?;
-        Ok(())
+        // Create and replace the content under a single write guard so that no other call can
+        // observe the file between its creation and its content being stored
+        let mut guard = self.write_guard();
+        let path = self._abs(&guard, path)?;
+        self._add(&mut guard, MemfsEntry::opts(&path).file().build())?;
+        match guard.get_file_mut(&path) {
+            Some(file) => {
+                file.data = data.as_ref().to_vec();
+                Ok(())
+            },
+            None => Err(PathError::is_not_file(&path).into()),
+        }
     }
 
     /// Write the given lines to to the target file including final newline
